@@ -88,3 +88,15 @@ Example fixed_new_file_is_stamped :
   let h := run_history_v real_md5 variant_all orm_schema steps NoFile [[]; []] in
   map (fun o => (List.length (stmts_of (s_trace o)), schema_beq (d_schema (s_disk o)) orm_schema)) (fst h) = [(0, true); (0, true)].
 Proof. vm_compute. repeat split; reflexivity. Qed.
+
+(* C19_unrecognised_all_steps: an identifier that is no revision id of the generated steps *)
+Example unknown_id_is_unrecognised :
+  forallb (fun r => negb (String.eqb (rev_id real_md5 r) "unknown")) (revisions steps) = true
+  /\ map (step_id real_md5) (get_steps real_md5 steps (Some "unknown")) = map (step_id real_md5) steps.
+Proof. vm_compute. split; reflexivity. Qed.
+
+(* C19_reaches_current_unstamped_refuted is not vacuous on the pinned tree (exact_upto is a revision);
+   should a later step list have no such revision, exact_upto is length steps + 1 *)
+Example exact_upto_is_a_revision_or_none :
+  Nat.leb exact_upto (List.length steps) = true \/ exact_upto = S (List.length steps).
+Proof. first [ left; vm_compute; reflexivity | right; vm_compute; reflexivity ]. Qed.
